@@ -59,10 +59,11 @@ func stripTextualKeywords(q *h.Query, excluded *int) {
 		*excluded++
 		q.Crosstab = nil
 	}
-	// listed finding shift-twice-nonpushdown: no SHIFT fields
+	// listed finding shift-twice-nonpushdown: no SHIFT fields;
+	// listed finding percentile-of-field-nonpushdown: no PERCENTILE(field, p)
 	var kept []h.QField
 	for _, f := range q.Fields {
-		if f.Ex != nil && f.Ex.Op == "SHIFT" {
+		if f.Ex != nil && (f.Ex.Op == "SHIFT" || f.Ex.Op == "PCTREF") {
 			*excluded++
 			continue
 		}
@@ -110,10 +111,79 @@ func genC11(t *rapid.T, excluded *int) C11Case {
 	nq := rapid.IntRange(1, 4).Draw(t, "nq")
 	for i := 0; i < nq; i++ {
 		q := h.GenQuery(t, h.FullQ(cfg.MaxPeriods), &c.Data.Schema, "ta", fmt.Sprintf("q%d", i))
+		biasClusterQuery(t, q, &c.Data.Schema, tbl.PartBy, fmt.Sprintf("bias%d", i))
 		stripTextualKeywords(q, excluded)
 		c.Queries = append(c.Queries, q)
 	}
 	return c
+}
+
+// biasClusterQuery steers some queries towards the shapes on which the
+// pushdown decision and the leader-side pipeline hinge: (a) a GROUP BY that
+// mentions every partition key, some of them only through a many-to-one
+// expression (such a query must NOT be pushed down whole); (b) HAVING + ORDER BY
+// + small LIMIT together on a grouped query (the leader must filter before it
+// slices).
+func biasClusterQuery(t *rapid.T, q *h.Query, s *h.Schema, partBy []string, label string) {
+	if q.FromSub != nil {
+		return
+	}
+	switch rapid.IntRange(0, 5).Draw(t, label) {
+	case 0:
+		if len(partBy) == 0 || len(q.Crosstab) > 0 {
+			return
+		}
+		var plain []string
+		var exprs []h.GroupEx
+		wrapped := false
+		for _, k := range partBy {
+			if (k == "da" || k == "dc") && (!wrapped || rapid.Bool().Draw(t, label+".wrap."+k)) {
+				wrapped = true
+				switch rapid.IntRange(0, 1).Draw(t, label+".fn."+k) {
+				case 0:
+					exprs = append(exprs, h.GroupEx{Name: "g" + k, SQL: "SUBSTR(" + k + ", 0, 1)"})
+				default:
+					// second character: collapses the single-character values of the
+					// generated domains (x, y -> "", p, q -> "") into one group
+					exprs = append(exprs, h.GroupEx{Name: "g" + k, SQL: "SUBSTR(" + k + ", 1, 1)"})
+				}
+			} else {
+				plain = append(plain, k)
+			}
+		}
+		if !wrapped {
+			return
+		}
+		q.GroupBy, q.GroupEx, q.GroupStar, q.GroupNone = plain, exprs, false, false
+		// ORDER BY keys that are no longer group dims would only produce errors
+		q.OrderBy = nil
+	case 1, 2:
+		if len(q.GroupBy) == 0 && len(q.GroupEx) == 0 && !q.GroupNone {
+			return
+		}
+		sem := h.SemFor(s, "ta")
+		opNames := []string{"_points"}
+		for _, f := range sem.Fields {
+			if f.Ex.Op != "BOUNDEDTOP" && f.Ex.Op != "PCT" {
+				opNames = append(opNames, f.Name)
+			}
+		}
+		if q.Having == nil {
+			q.Having = h.GenHaving(t, h.FullQ(4), opNames, 0, label+".h")
+		}
+		if len(q.OrderBy) == 0 {
+			cands := []string{"_time"}
+			for _, f := range q.Fields {
+				if !f.Star && f.Name != "" {
+					cands = append(cands, f.Name)
+				}
+			}
+			cands = append(cands, q.GroupBy...)
+			q.OrderBy = []h.OrderKey{{Field: rapid.SampledFrom(cands).Draw(t, label+".ok"), Desc: rapid.Bool().Draw(t, label+".od")}}
+		}
+		q.Limit = rapid.IntRange(1, 3).Draw(t, label+".limit")
+		q.Offset = 0
+	}
 }
 
 // partitionOf assigns a point to a partition as a function of its
@@ -307,6 +377,12 @@ func probesC11(rec *h.Rec) {
 		var c5 C11Case
 		if json.Unmarshal(raw, &c5) == nil {
 			probe(rec, "TestC11", "shift-twice-nonpushdown", "a SHIFT(...) field in a non-pushdown cluster query is shifted on the partition and again on the leader (SELECT ..., SHIFT(_points, '-15s') AS q1 ... GROUP BY period(10s): the shifted value appears one period later than in the local plan)", c5, func() error { return runC11(&c5) })
+		}
+	}
+	if raw, err := os.ReadFile("probes/c11_pctref.json"); err == nil {
+		var c8 C11Case
+		if json.Unmarshal(raw, &c8) == nil {
+			probe(rec, "TestC11", "percentile-of-field-nonpushdown", "PERCENTILE(<stored percentile field>, p) in a non-pushdown cluster query (here ... GROUP BY stride(10s) on one partition) comes back as 0 (or the row is missing) while the local plan returns the percentile: the partition answers with its own PERCENTILE(...) column and the leader's group stage cannot merge it back into the wrapped field", c8, func() error { return runC11(&c8) })
 		}
 	}
 	probe(rec, "TestC11", "textual-group-by-rewrite", "a non-pushdown query whose text contains 'group by ' before the outer GROUP BY (here inside an IN-subquery) is cut at the wrong place by planClusterNonPushdown: the cluster plan is a parse error while the local plan returns rows", c, func() error { return runC11(&c) })
